@@ -147,19 +147,19 @@ TEXT = {
                      "on the tree with continuation-passing statements for the loop levels) + regenerated translation of the ladder functions of parser.go, kernel-decided equal to the GoogleSQL table (levels, associativity, token spellings) + EXPR model/implementation correspondence + table-driven predicate",
     },
     "C01": {
-        "level": "Proof (partial: a fragment). Explored on the real entry points: for every error-free parse of the corpus, probes, mutations and expression soups, SQL() re-parses with the same entry point to a tree equal up to position values and is a fixed point. Two recorded known findings (join method, empty PRIMARY KEY) are recognised by call site. PROVED for the expression fragment M1 of C07 (MF/Props/C01Expr.lean, on the models of lexer.go, parseExpr..parseLit and the SQL() methods): the byte-level round trip `roundtrip_expr_partial` (accepted input => the SQL() text lexes and parses to the same tree, under the necessary hypothesis that no identifier token reads SAFE_CAST / REPLACE_FIELDS), `printed_lexes` (the lexer reads the printed text of ANY tree with lexer-producible leaves as exactly the printer's tokens), `fixed_point_expr`, and a kernel-checked counterexample showing the hypothesis necessary for the model (the corresponding defect of the Go code — `SAFE_CAST` written with back quotes did not re-parse — was found by this proof and is repaired). Proved for the ParseType entry point (lexer and parser model, MF/Model/TypeParse.lean tied to memefish.ParseType by the TYPE channel: every field, position, Pos()/End(), SQL()): for every accepted input, SQL() lexes and parses back to the same tree up to positions and prints the same text (MF.Props.C01.type_roundtrip), and so does every hand-built well-formed tree with non-empty names (type_roundtrip_tree); the lexer side is a piece-by-piece lexing theorem for the printed text (print_lexes). The flag rt of the TYPE channel evaluates the same statement with Go's lexer on Go's SQL() for every OK request. The fragment models' printers and position formulas are proved equal to the interpretation of the regenerated tables (MF/Props/C19Bridge.lean: sql_bridge_expr, sql_bridge_type, prec_bridge, registered under C19): sqlE / sqlT / exprPrec of these theorems are the SQL() bodies, exprPrec and paren that tools/extract reads out of ast/sql.go on every run.",
+        "level": "Proof (partial: a fragment). Explored on the real entry points: for every error-free parse of the corpus, probes, mutations and expression soups, SQL() re-parses with the same entry point to a tree equal up to position values and is a fixed point. Two recorded known findings (join method, empty PRIMARY KEY) are recognised by call site. PROVED for the expression fragment M1 of C07 (MF/Props/C01Expr.lean, on the models of lexer.go, parseExpr..parseLit and the SQL() methods): the byte-level round trip `roundtrip_expr_partial` (accepted input => the SQL() text lexes and parses to the same tree, under the necessary hypothesis that no identifier token reads SAFE_CAST / REPLACE_FIELDS), `printed_lexes` (the lexer reads the printed text of ANY tree with lexer-producible leaves as exactly the printer's tokens), `fixed_point_expr`, and a kernel-checked counterexample showing the hypothesis necessary for the model (the corresponding defect of the Go code — `SAFE_CAST` written with back quotes did not re-parse — was found by this proof and is repaired). Proved for the ParseType entry point (lexer and parser model, MF/Model/TypeParse.lean tied to memefish.ParseType by the TYPE channel: every field, position, Pos()/End(), SQL()): for every accepted input, SQL() lexes and parses back to the same tree up to positions and prints the same text (MF.Props.C01.type_roundtrip), and so does every hand-built well-formed tree with non-empty names (type_roundtrip_tree); the lexer side is a piece-by-piece lexing theorem for the printed text (print_lexes). The flag rt of the TYPE channel evaluates the same statement with Go's lexer on Go's SQL() for every OK request. The fragment models' printers and position formulas are proved equal to the interpretation of the regenerated tables (MF/Props/C19Bridge.lean: sql_bridge_expr, sql_bridge_type, prec_bridge, registered under C19): sqlE / sqlT / exprPrec of these theorems are the SQL() bodies, exprPrec and paren that tools/extract reads out of ast/sql.go on every run. Proved for the SELECT core of ParseQuery at TOKEN level (Task X, MF.Props.C01.query_roundtrip_tokens_partial): any token list reading the printed tokens of a parsed query without expr.* items and without unquoted SAFE_CAST / REPLACE_FIELDS identifiers is accepted again, with a well-formed tree whose yield reads those tokens; that the two trees are equal up to positions is evaluated on concrete inputs and, for the text, by the QUERY channel (SQL() bytes compared with Go on every OK request), not proved.",
         "design_ref": "DESIGN.md §4 C01",
         "note": "Theorems cover the expression fragment only and are about the models (tied to the code by the LEX and EXPR channels); everything else is exploration plus kernel-decided table obligations. Known findings are listed in known-findings.txt.",
         "technique": "Lean 4 proof for the expression fragment (lexer concatenation theorem + printer/lexer agreement + parser completeness) + table obligations + property predicate evaluated on the implementation",
     },
     "C02": {
-        "level": "Proof (partial: a fragment). Explored on the real entry points: significant-token sequence of the input (from the lexer, which C13/C14 cover by proof) vs that of SQL() modulo the documented canonicalisations, for every error-free parse of the explored inputs. PROVED for the expression fragment M1 of C07 (MF/Props/C01Expr.lean `lossless_expr`, on the models): the projected tokens (kind class + value; keyword case, `<>`/`!=`, quoting style, positions and trivia erased) of the SQL() text are those of the input, token by token, except that an identifier spelling a position keyword in x[kw(...)] comes back in canonical spelling (relation CanonRel; equality after canonTok). Proved for the ParseType entry point (lexer and parser model): for every accepted input the tokens consumed by the parse and the tokens of SQL() read as the same description list - kinds, identifier names unquoted, simple type names up to case, '>>'/'<>' expanded (MF.Props.C01.type_lossless); evaluated on the implementation by flag rt of the TYPE channel.",
+        "level": "Proof (partial: a fragment). Explored on the real entry points: significant-token sequence of the input (from the lexer, which C13/C14 cover by proof) vs that of SQL() modulo the documented canonicalisations, for every error-free parse of the explored inputs. PROVED for the expression fragment M1 of C07 (MF/Props/C01Expr.lean `lossless_expr`, on the models): the projected tokens (kind class + value; keyword case, `<>`/`!=`, quoting style, positions and trivia erased) of the SQL() text are those of the input, token by token, except that an identifier spelling a position keyword in x[kw(...)] comes back in canonical spelling (relation CanonRel; equality after canonTok). Proved for the ParseType entry point (lexer and parser model): for every accepted input the tokens consumed by the parse and the tokens of SQL() read as the same description list - kinds, identifier names unquoted, simple type names up to case, '>>'/'<>' expanded (MF.Props.C01.type_lossless); evaluated on the implementation by flag rt of the TYPE channel. Proved for the SELECT core at TOKEN level (Task X, MF.Props.C01.query_print_lossless, select_trailing_only): at the query layer SQL() loses exactly the trailing comma of the select list and adds nothing (ALL / DISTINCT, an optional AS, ASC / DESC, OFFSET are printed iff written); inside expression slots the losses are those proved for expressions.",
         "design_ref": "DESIGN.md §4 C02",
         "note": "Theorems cover the expression fragment only and are about the models (tied to the code by the LEX and EXPR channels); everything else is exploration plus kernel-decided table obligations. Known findings are listed in known-findings.txt.",
         "technique": "Lean 4 proof for the expression fragment (lexer concatenation theorem + printer/lexer agreement + parser completeness) + table obligations + property predicate evaluated on the implementation",
     },
     "C05": {
-        "level": "Proof (partial: a fragment). Explored on the real entry points: range, token alignment (with the >> split), nesting and sibling order of every node of every returned tree; Lean theorems about Pos()/End() as functions of the tree exist (C04/C19) but the parser-side alignment is not proved. Proved for the ParseType entry point: for every accepted input of the model (lexer + parser), every node - types, struct fields, identifiers - starts at a token start and ends at a token end ('>>' and '<>' counted as two one-byte tokens), satisfies 0 <= pos < end <= len, and contains its children in order without overlap (MF.Props.C05.type_positions); the known defect of a back-quoted simple type name (End() two bytes short) is excluded by hypothesis and reproduced by MF.Props.C05.type_positions_fails_backquoted. Proved for the expression fragment: for lexer output and a successful ParseExpr of the model with positions (MF/Model/ExprPos.lean, tied to the Go parser by the EXPRPOS channel), every Go node of the tree starts at the pos of a token and ends at the end of a token it consumed, so Pos < End <= len, children lie inside their parent, in source order without overlap (MF.Props.C05.expr_positions); a folded sign '- 1' is one literal over two tokens. The fragment models' printers and position formulas are proved equal to the interpretation of the regenerated tables (MF/Props/C19Bridge.lean: pos_bridge_expr, pos_bridge_type, pos_bridge_field and the pos_doc_* variants, registered under C19): posP / endP / posT / endT / posF / endF of these theorems are the Pos() / End() methods that tools/extract reads out of ast/pos.go (and the // pos =, // end = lines of ast/ast.go) on every run. Whole grammar, static (regenerated on every run, kernel-decided): O2 MF.Props.C05.offsets_match - every documented summand F + n of every pos/end expression is fed, at every ast.K{...} literal of parser.go, by the start of a token whose raw text is n bytes long (provenance read out of parser.go by tools/extract/posprov.go), MF.Props.C05.reads_guarded - every position field is read from a token the dominating guards determine; O3 MF.Props.C05.chains_complete - the documented pos/end chains name the leading/trailing optional items of the SQL() template in order (252 of 264 kinds, 12 exempt with reasons); exceptions are explicit tables that fail when stale; the link site-executes-with-that-token is the extracted fact, not a theorem.",
+        "level": "Proof (partial: a fragment). Explored on the real entry points: range, token alignment (with the >> split), nesting and sibling order of every node of every returned tree; Lean theorems about Pos()/End() as functions of the tree exist (C04/C19) but the parser-side alignment is not proved. Proved for the ParseType entry point: for every accepted input of the model (lexer + parser), every node - types, struct fields, identifiers - starts at a token start and ends at a token end ('>>' and '<>' counted as two one-byte tokens), satisfies 0 <= pos < end <= len, and contains its children in order without overlap (MF.Props.C05.type_positions); the known defect of a back-quoted simple type name (End() two bytes short) is excluded by hypothesis and reproduced by MF.Props.C05.type_positions_fails_backquoted. Proved for the expression fragment: for lexer output and a successful ParseExpr of the model with positions (MF/Model/ExprPos.lean, tied to the Go parser by the EXPRPOS channel), every Go node of the tree starts at the pos of a token and ends at the end of a token it consumed, so Pos < End <= len, children lie inside their parent, in source order without overlap (MF.Props.C05.expr_positions); a folded sign '- 1' is one literal over two tokens. The fragment models' printers and position formulas are proved equal to the interpretation of the regenerated tables (MF/Props/C19Bridge.lean: pos_bridge_expr, pos_bridge_type, pos_bridge_field and the pos_doc_* variants, registered under C19): posP / endP / posT / endT / posF / endF of these theorems are the Pos() / End() methods that tools/extract reads out of ast/pos.go (and the // pos =, // end = lines of ast/ast.go) on every run. Whole grammar, static (regenerated on every run, kernel-decided): O2 MF.Props.C05.offsets_match - every documented summand F + n of every pos/end expression is fed, at every ast.K{...} literal of parser.go, by the start of a token whose raw text is n bytes long (provenance read out of parser.go by tools/extract/posprov.go), MF.Props.C05.reads_guarded - every position field is read from a token the dominating guards determine; O3 MF.Props.C05.chains_complete - the documented pos/end chains name the leading/trailing optional items of the SQL() template in order (252 of 264 kinds, 12 exempt with reasons); exceptions are explicit tables that fail when stale; the link site-executes-with-that-token is the extracted fact, not a theorem. For the SELECT core of ParseQuery (Task X) only a first step is proved: Pos() of the QueryStatement, its QueryExpr and the Select node is the position of the first token (MF.Props.C05.query_pos_first_token); End() and the inner nodes are compared with Go on every OK request of the QUERY channel (Pos()/End() of every node), not proved.",
         "design_ref": "DESIGN.md §4 C05",
         "note": "Theorems cover the ParseType entry point and the expression fragment of ParseExpr only and are about the models (tied to the code by the LEX, TYPE and EXPRPOS channels); every other entry point and node kind is exploration. Known findings are listed in known-findings.txt.",
         "technique": "Lean 4 proof for ParseType and for the expression fragment with positions (erasure to the proved expression model; function-for-function parser model with positions, grammar as an inductive relation, lexer window/concatenation theorems) + TYPE correspondence channel + property predicate evaluated on the implementation (corpus, reference grammar G, grafts, edits, mutations)",
@@ -171,7 +171,7 @@ TEXT = {
         "technique": "Lean 4 proof for ParseType and for the expression fragment with positions (erasure to the proved expression model; function-for-function parser model with positions, grammar as an inductive relation, lexer window/concatenation theorems) + TYPE correspondence channel + property predicate evaluated on the implementation (corpus, reference grammar G, grafts, edits, mutations)",
     },
     "C08": {
-        "level": "Proof (partial: a fragment). Explored on the real entry points: every golden input not marked !bad_ (the maintainers' rendering of each documented production) and its keyword/pseudo-keyword re-casings through the specific entry point and ParseStatement (equal trees), and ';'-joined lists through the list entry points. Plus the reference grammar G written from the documentation (harness/grammar*.go: 202 non-terminals, 504 alternatives; systematic enumeration of every alternative, every optional on/off, list lengths min..min+2, keyword-like identifiers in both cases, and seeded random derivations: 12 k sentences quick / 146 k thorough), each sentence through its entry point and ParseStatement with equal trees and with the lexer's tokens compared to the generator's own terminal list. Ten documented forms that memefish rejects are recorded findings (G-known:*), ten others were repaired. Proved for the ParseType entry point: the documented type grammar G_T (MF/Spec/TypeGrammar.lean, over token kinds, '>>' and '<>' standing for two one-byte tokens) is exactly what the model of ParseType accepts and the tree returned is the derivation tree: soundness (type_sound), completeness for ALL derivations with a concrete fuel (type_complete, type_complete_tree), unambiguity (type_unique), the two as one equivalence (type_accepts_iff); no side condition: since the repair of lookaheadSimpleType a named type whose first path component reads as a simple type name (date.T, string.x) is accepted as G_T says. The model is tied to memefish.ParseType by the TYPE channel (all type texts up to a size bound in six spellings, all token sequences up to length 4 / 6 over the type vocabulary, mutations, soups). Proved for the SELECT core of ParseQuery / ParseStatement (Task X, model MF/Model/Query.lean tied to the code by the QUERY channel on every run): an accepted token list is the yield of the returned tree and a derivation of the documented grammar G_Q (MF.Props.C08.query_sound, query_sound_top), and on inputs starting with SELECT the statement entry point returns exactly the query entry point's answer (query_entry_points_agree).",
+        "level": "Proof (partial: a fragment). Explored on the real entry points: every golden input not marked !bad_ (the maintainers' rendering of each documented production) and its keyword/pseudo-keyword re-casings through the specific entry point and ParseStatement (equal trees), and ';'-joined lists through the list entry points. Plus the reference grammar G written from the documentation (harness/grammar*.go: 202 non-terminals, 504 alternatives; systematic enumeration of every alternative, every optional on/off, list lengths min..min+2, keyword-like identifiers in both cases, and seeded random derivations: 12 k sentences quick / 146 k thorough), each sentence through its entry point and ParseStatement with equal trees and with the lexer's tokens compared to the generator's own terminal list. Ten documented forms that memefish rejects are recorded findings (G-known:*), ten others were repaired. Proved for the ParseType entry point: the documented type grammar G_T (MF/Spec/TypeGrammar.lean, over token kinds, '>>' and '<>' standing for two one-byte tokens) is exactly what the model of ParseType accepts and the tree returned is the derivation tree: soundness (type_sound), completeness for ALL derivations with a concrete fuel (type_complete, type_complete_tree), unambiguity (type_unique), the two as one equivalence (type_accepts_iff); no side condition: since the repair of lookaheadSimpleType a named type whose first path component reads as a simple type name (date.T, string.x) is accepted as G_T says. The model is tied to memefish.ParseType by the TYPE channel (all type texts up to a size bound in six spellings, all token sequences up to length 4 / 6 over the type vocabulary, mutations, soups). Proved for the SELECT core of ParseQuery / ParseStatement (Task X, model MF/Model/Query.lean tied to the code by the QUERY channel on every run): an accepted token list is the yield of the returned tree and a derivation of the documented grammar G_Q (MF.Props.C08.query_sound, query_sound_top), and on inputs starting with SELECT the statement entry point returns exactly the query entry point's answer (query_entry_points_agree). Completeness for the SELECT core (Task X): every sentence of G_Q without the expr.* production, read by a token list without unquoted SAFE_CAST / REPLACE_FIELDS identifiers and followed by <eof>, is accepted by ParseQuery and by ParseStatement with the same tree (MF.Props.C08.query_complete_partial, query_complete_statement_partial; side conditions shown necessary by complete_needs_castfree, trailing_comma_placement).",
         "design_ref": "DESIGN.md §4 C08",
         "note": "Theorems cover the ParseType entry point, the expression fragment (C07) and the SELECT core of ParseQuery / ParseStatement, and are about the models (tied to the code by the LEX, TYPE, EXPR and QUERY channels); every other entry point and node kind is exploration. Known findings are listed in known-findings.txt.",
         "technique": "Lean 4 proof for ParseType (function-for-function parser model with positions, grammar as an inductive relation, soundness + completeness + uniqueness) and for the SELECT core of ParseQuery/ParseStatement (function-for-function model, soundness against the documented grammar, entry-point agreement) + TYPE/QUERY/EXPR correspondence channels + regenerated parser.go data (simpleTypes, parseType dispatch) + property predicate evaluated on the implementation (corpus, reference grammar G, grafts, edits, mutations)",
